@@ -5,6 +5,8 @@ package checks
 import (
 	"bytes"
 	"fmt"
+	stypes "github.com/pokt-network/posmint/store/types"
+	posTypes "github.com/pokt-network/posmint/x/pos/types"
 	"runtime"
 	"sync"
 	"sync/atomic"
@@ -64,6 +66,51 @@ func runC14(h rmHist, st *c14stats) (out []*c12result) {
 	V := int64(len(h.Choice))
 	check := func(latest int64, phase string) {
 		atomic.AddInt64(&st.phases, 1)
+		// the read-only view of a height (CacheMultiStoreWithVersion, what height-pinned reads use):
+		// the content committed at that height whatever has been written or committed since; no data
+		// for a released or future height
+		for height := int64(1); height <= latest+1; height++ {
+			var view stypes.CacheMultiStore
+			var verr error
+			func() {
+				defer func() {
+					if r := recover(); r != nil {
+						verr = fmt.Errorf("panic: %v", r)
+					}
+				}()
+				view, verr = s.rs.CacheMultiStoreWithVersion(height)
+			}()
+			readable := rmRetained(height, latest, h.Pruning)
+			if readable && verr != nil {
+				fail("view-of-readable-height-fails|"+phase, "CacheMultiStoreWithVersion(%d) (retained, latest %d) fails: %v", height, latest, verr)
+				continue
+			}
+			if verr != nil {
+				continue
+			}
+			for i := 0; i < h.N; i++ {
+				for _, key := range c14keys {
+					if len(key) == 0 {
+						continue
+					}
+					atomic.AddInt64(&st.queries, 1)
+					var got []byte
+					func() {
+						defer func() { recover() }()
+						got = view.GetKVStore(s.keys[i]).Get(key)
+					}()
+					if !readable {
+						if got != nil {
+							fail("view-serves-unreadable-height|"+phase, "the view of height %d (not retained / future, latest %d) serves store %s key %q = %q", height, latest, rmName(i), key, got)
+						}
+						continue
+					}
+					if want, present := snaps[height][i][string(key)]; !bytes.Equal(got, want) || (got == nil) != !present {
+						fail("view-wrong-value|"+phase, "the view of height %d (latest %d) shows store %s key %q = %q, committed at that height %q (present=%v)", height, latest, rmName(i), key, got, want, present)
+					}
+				}
+			}
+		}
 		for i := 0; i < h.N; i++ {
 			for _, key := range c14keys {
 				for height := int64(0); height <= latest+1; height++ {
@@ -93,6 +140,15 @@ func runC14(h rmHist, st *c14stats) (out []*c12result) {
 									kind = "future"
 								}
 								fail(kind+"-height-served|"+phase, "store %s key %q height %d (%s, latest %d): value %q proof-ops %d returned", rmName(i), key, hh, kind, latest, res.Value, lenOps(res.Proof))
+							}
+							// ... and the response says so: a success without value, proof and message cannot be
+							// told from "this key was absent at that height"
+							if res.Code == 0 && res.Log == "" && res.Value == nil {
+								kind := "pruned"
+								if hh > latest {
+									kind = "future"
+								}
+								fail(kind+"-height-answered-as-absent|"+phase, "store %s key %q height %d (%s, latest %d) prove=%v: the response carries neither an error code nor a message, exactly like the answer for an absent key", rmName(i), key, hh, kind, latest, prove)
 							}
 							continue
 						}
@@ -325,6 +381,51 @@ func c14app(st *c14stats) (out []*c12result) {
 				}
 			}
 		}
+		// between the transactions of one more block: store queries and the modules' own queries at
+		// the latest height (explicit and defaulted) answer exactly as they did before the block began
+		accKey := func(i int) []byte { return append([]byte{0x01}, chain.Addr(i)...) }
+		jm := func(v interface{}) []byte { return posTypes.ModuleCdc.MustMarshalJSON(v) }
+		type q struct {
+			path string
+			data []byte
+		}
+		qs := []q{
+			{"/store/auth/key", accKey(3)}, {"/store/auth/key", accKey(4)}, {"/store/auth/key", accKey(14)},
+			{"/store/pos/key", append([]byte{0x21}, chain.Addr(1)...)},
+			{"/custom/pos/account_balance", jm(posTypes.QueryAccountBalanceParams{Address: chain.Addr(3)})},
+			{"/custom/pos/account_balance", jm(posTypes.QueryAccountBalanceParams{Address: chain.Addr(14)})},
+			{"/custom/pos/validator", jm(posTypes.QueryValidatorParams{Address: chain.Addr(1)})},
+			{"/custom/pos/validators", jm(posTypes.NewQueryValidatorsParams(1, 100))},
+			{"/custom/pos/stakedPool", nil}, {"/custom/auth/supply", nil}, {"/custom/gov/dao", nil},
+		}
+		ask := func() []string {
+			var out []string
+			for _, x := range qs {
+				for _, hq := range []int64{0, d.App.LastBlockHeight()} {
+					atomic.AddInt64(&st.queries, 1)
+					r := d.App.Query(abci.RequestQuery{Path: x.path, Data: x.data, Height: hq})
+					out = append(out, fmt.Sprintf("%s h=%d -> code %d value %X", x.path, hq, r.Code, r.Value))
+				}
+			}
+			return out
+		}
+		committed := ask()
+		atomic.AddInt64(&st.phases, 1)
+		mid := chain.Block{Events: []chain.Event{
+			{Kind: "tx", Tx: &chain.TxSpec{Msg: "send", From: 3, To: 14, Amount: 7}},
+			{Kind: "tx", Tx: &chain.TxSpec{Msg: "unstake", From: 1}},
+			{Kind: "tx", Tx: &chain.TxSpec{Msg: "send", From: 4, To: 3, Amount: 2}},
+		}}
+		r := d.RunBlock(mid, &chain.Hooks{AfterEvent: func(dd *chain.Driver, i int, e chain.Event, tr *chain.TxResult) {
+			for j, a := range ask() {
+				if a != committed[j] {
+					fail("mid-block-answer-differs-from-committed", "after transaction %d of block %d (uncommitted): %s; before the block began: %s", i+1, latest+1, a, committed[j])
+				}
+			}
+		}})
+		if r.Panic != "" {
+			fail("history-panics", "%s", r.Panic)
+		}
 		d.Close()
 	}
 	return out
@@ -410,9 +511,9 @@ func C14(tier string) int {
 	run.Set("proofs_verified", st.proofs)
 	run.Set("histories", total)
 	run.Set("jobs", desc)
-	run.Set("rule", "for every write history: after the last commit and in the middle of the last block (uncommitted writes applied), every store x every key of {k1,k2,k,k1\\x00,k3,k0,zz} x every height 0..latest+1 x prove in {false,true} through rootmulti.Query('/<store>/key'); value compared with the model snapshot of the height, proof verified with DefaultProofRuntime against the app hash of that height and required to fail against every other height's different hash, for a different value and for the opposite presence; evaluations = queries issued; states = (history, phase) store states that were queried exhaustively (between blocks, mid-block, after reopening); transitions = queries + commits executed; distinct_nontrivial = proofs verified (each for a distinct history, phase, store, key, height)")
+	run.Set("rule", "for every write history: after the last commit and in the middle of the last block (uncommitted writes applied), every store x every key of {k1,k2,k,k1\\x00,k3,k0,zz} x every height 0..latest+1 x prove in {false,true} through rootmulti.Query('/<store>/key'), and every height 1..latest+1 through the read-only view CacheMultiStoreWithVersion(height) (every store x key read from it); value compared with the model snapshot of the height, proof verified with DefaultProofRuntime against the app hash of that height and required to fail against every other height's different hash, for a different value and for the opposite presence; evaluations = queries issued; states = (history, phase) store states that were queried exhaustively (between blocks, mid-block, after reopening); transitions = queries + commits executed; distinct_nontrivial = proofs verified (each for a distinct history, phase, store, key, height)")
 	run.Sample("N=2 pruning=(0,2) v1[k1=a | k2=a] v2[del k1 | -] v3[k1=b | k1=a;del k2]: store s1 key \"k1\" height 2 prove=true -> absence proof against app hash of height 2")
-	run.Assume("application level: a 5-block chain history under 3 pruning options, every account/validator key ever stored (+ never-written ones) x heights 0..latest+1 x prove through BaseApp.Query(/store/<name>/key): height 0 = latest, proof refused at height <= 1, values against the raw dump recorded at that height, proofs against the app hash returned by that Commit; all of it repeated on a node re-created over the same database before it commits again",
+	run.Assume("application level: a 5-block chain history under 3 pruning options, every account/validator key ever stored (+ never-written ones) x heights 0..latest+1 x prove through BaseApp.Query(/store/<name>/key): height 0 = latest, proof refused at height <= 1, values against the raw dump recorded at that height, proofs against the app hash returned by that Commit; all of it repeated on a node re-created over the same database before it commits again; then one more block of three transactions: after each of them 11 store and module queries (account, validator, pool, supply, DAO; height 0 and latest) must answer exactly as before the block began",
 		"only /key queries are judged (/subspace reads the working tree by construction)", "for height 0 the documented default applies and the response is judged against the height it reports", "retention rule as in C12")
 	_ = crashdb.New
 	return run.Finish()
